@@ -355,6 +355,25 @@ Fixpoint run_pass_gen (fixed : bool) (remaining : rl) (claims : list (list itype
 Definition run_pass := run_pass_gen true.
 Definition run_pass_prefix := run_pass_gen false.   (* the tree before the F11 fix *)
 
+(* the lifecycle states an existing node of the pool can be in while a provisioning pass runs *)
+Inductive nstate :=
+| NInFlight          (* launched NodeClaim, no Node object yet *)
+| NReady             (* registered, initialized, Ready *)
+| NDisruptedTaint    (* karpenter.sh/disrupted:NoSchedule applied (queue.markDisrupted), not yet marked for deletion *)
+| NCordoned          (* spec.unschedulable *)
+| NNotReady          (* Ready condition False *)
+| NUninitialized     (* registered, not yet initialized *)
+| NMarkedForDeletion (* Cluster.MarkForDeletion *)
+| NDeleting.         (* NodeClaim has a deletionTimestamp *)
+
+(* Every node that is not being deleted counts against the limits: Provisioner.Schedule passes
+   nodes.Active() (= not MarkedForDeletion) and calculateExistingNodeClaims subtracts the capacity of
+   each of them, whatever its taints, readiness or schedulability. *)
+Definition counts_against_limits (s : nstate) : bool :=
+  match s with NMarkedForDeletion | NDeleting => false | _ => true end.
+Definition active_caps (ns : list (nstate * rl)) : list rl :=
+  map snd (filter (fun n => counts_against_limits (fst n)) ns).
+
 (* Scheduler.remainingResources at the start of a pass: limits minus capacity of every active node *)
 Definition remaining0 (limits : rl) (existing : list rl) : rl := fold_left subtract existing limits.
 
